@@ -354,7 +354,7 @@ def archive(key, pid, src, v, needs, missed):
     if os.path.exists(os.path.join(src, "NOTES.md")):
         shutil.copy(os.path.join(src, "NOTES.md"), os.path.join(dst, "NOTES.md"))
     p = subprocess.run([os.path.join(HERE, "tools", "seedcheck.sh"), pid, os.path.join(dst, "patch.diff"), os.path.join(dst, "demo.py")],
-                       stdout=subprocess.PIPE, stderr=subprocess.STDOUT, text=True)
+                       stdout=subprocess.PIPE, stderr=subprocess.STDOUT, text=True, errors="replace")
     out = p.stdout
     if os.path.exists(os.path.join(dst, "patch.diff.rebased")):
         os.replace(os.path.join(dst, "patch.diff.rebased"), os.path.join(dst, "patch.diff"))
@@ -421,7 +421,7 @@ def main():
             meta = json.load(open(mp))
             pid = meta["breaks_property"]
             p = subprocess.run([os.path.join(HERE, "tools", "seedcheck.sh"), pid, os.path.join(d, "patch.diff"), os.path.join(d, "demo.py")],
-                               stdout=subprocess.PIPE, stderr=subprocess.STDOUT, text=True)
+                               stdout=subprocess.PIPE, stderr=subprocess.STDOUT, text=True, errors="replace")
             if os.path.exists(os.path.join(d, "patch.diff.rebased")):
                 os.replace(os.path.join(d, "patch.diff.rebased"), os.path.join(d, "patch.diff"))
             chk = re.search(r"check (C\d+) (\w+) on changed tree: rc=(\d+) :: (.*)", p.stdout)
@@ -455,7 +455,7 @@ def main():
         if os.path.exists(os.path.join(src, "NOTES.md")):
             shutil.copy(os.path.join(src, "NOTES.md"), os.path.join(dst, "NOTES.md"))
         p = subprocess.run([os.path.join(HERE, "tools", "seedcheck.sh"), pid, os.path.join(dst, "patch.diff"), os.path.join(dst, "demo.py")],
-                           stdout=subprocess.PIPE, stderr=subprocess.STDOUT, text=True)
+                           stdout=subprocess.PIPE, stderr=subprocess.STDOUT, text=True, errors="replace")
         out = p.stdout
         tests = re.search(r"tests\(with change\): (.*)", out)
         demo = re.search(r"demo clean rc=(\d+).*; with change rc=(\d+)", out)
